@@ -4,9 +4,9 @@ different symbolic value V[i]; every scope logs x before and after calling its c
 import itertools
 
 ROLES = {
-    "M": ["none", "assign", "aug", "walrus", "for", "for_leak", "def", "class", "import", "read"],
-    "F": ["none", "assign", "aug", "walrus", "param", "for", "for_leak", "comp", "def", "class", "import", "global_assign", "global_read", "nonlocal_assign", "nonlocal_read", "nonlocal_aug", "read", "param_default"],
-    "C": ["none", "assign", "aug", "aug_outer", "walrus", "for", "def", "class", "import", "global_assign", "nonlocal_assign", "read", "read_then_assign"],
+    "M": ["none", "assign", "aug", "walrus", "for", "for_leak", "def", "class", "import", "read", "cond_def"],
+    "F": ["none", "assign", "aug", "walrus", "param", "for", "for_leak", "comp", "def", "class", "import", "global_assign", "global_read", "nonlocal_assign", "nonlocal_read", "nonlocal_aug", "read", "param_default", "cond_def", "cond_def_global"],
+    "C": ["none", "assign", "aug", "aug_outer", "walrus", "for", "def", "class", "import", "global_assign", "nonlocal_assign", "read", "read_then_assign", "cond_def"],
     "L": ["none", "param", "read", "walrus", "param_default", "late_walrus", "inner_param"],
     "K": ["none", "target", "read", "walrus", "iter_read", "filter_walrus"],
 }
@@ -72,6 +72,15 @@ def stmt_body(kind, role, sid, children, ctx):
         L.append("x = %s" % ctx.val())
     # binding sites that may not bind at run time (symbolic): a later read then falls back to the
     # enclosing binding (class body -> globals) instead of the scope's own
+    elif role in ("cond_def", "cond_def_global"):
+        # a definition in each branch of an if/else (the branch taken depends on a symbolic value):
+        # exactly one of them must stay bound -- also when the name lives in a helper store
+        if role == "cond_def_global":
+            L.append("global x")
+        L.append("if %s > 0:" % ctx.val())
+        L.append("    def x(): return %s" % ctx.val())
+        L.append("else:")
+        L.append("    def x(): return %s" % ctx.val())
     elif role == "cond_assign":
         L.append("if %s > 0:" % ctx.val())
         L.append("    x = %s" % ctx.val())
